@@ -19,6 +19,9 @@ def build_obs(tier, tables=None):
     if tier != "quick":
         obs += [o for o in parse_step_obs(["CHK_C01"], "c01n3", states=range(0, 10), callbacks=False, tier=tier, ntok=3)]
     # the observation layer: 'every option read back through the getters holds exactly the values': readers vs stored state
+    from props.parsecommon import _ob, pathname_obs
+    obs.append(_ob("c01", ["CHK_C01"], 5, "SECKV", 0, 0, 0, extra=("KV_SUBOPTS",)))  # free-form section with declared sub-options
+    obs += pathname_obs(["CHK_C01"], "c01")  # item names that are path keys ("c|X")
     from props.getcommon import get_obs
     obs += get_obs("c01", "CHK_C01", tier)
     return obs
